@@ -340,7 +340,9 @@ impl Report {
     /// Write evidence, print verdict lines, return the process exit code.
     pub fn finish(&self) -> i32 {
         let ev = self.evidence_json();
-        let dir = self.root.join("evidence");
+        // mutation experiments redirect their evidence so that the committed files always stem
+        // from runs on the unchanged tree
+        let dir = std::env::var("VERIF_EVIDENCE_DIR").map(PathBuf::from).unwrap_or_else(|_| self.root.join("evidence"));
         let _ = std::fs::create_dir_all(&dir);
         let path = dir.join(format!("{}.json", self.property));
         let tmp = dir.join(format!(".{}.json.tmp", self.property));
